@@ -50,9 +50,11 @@ REJECT = "reject"
 class DModel:
     """Executable reference reading of a fitted discretizer."""
 
-    def __init__(self, obj):
-        self.str_nan = obj.str_nan
-        self.str_default = obj.str_default
+    def __init__(self, obj, sentinels=None):
+        # the sentinels are the ones the user asked for when known (an object that forgot or mixed
+        # them up must not be believed)
+        self.str_nan = sentinels[0] if sentinels else obj.str_nan
+        self.str_default = sentinels[1] if sentinels else obj.str_default
         self.output_dtype = obj.output_dtype
         self.features = [str(f) for f in obj.features]
         self.kind = {}
